@@ -280,7 +280,7 @@ def make_reducer():
 
 def check(prop, tier):
     res = common.Result(prop, tier)
-    N = BOUNDS[tier]
+    N = common.bound("C18_N", BOUNDS[tier])
     cfgs = D.box(N, tier)
     res.bounds = {"N_max": N, "configs": len(cfgs)}
     out = D.run_box(cfgs, make_reducer(), observers=False)
